@@ -77,6 +77,70 @@ def stepLine (s : Sys) (line : String) : Sys × String :=
         let (_, s') := (sendall {} c.toNat! bytes).run s
         let extra := if !s'.clocks.isEmpty then " F:unused_clock_readings" else if !s'.picks.isEmpty then " F:unused_picks" else ""
         (s', renderOut s' ++ extra)
+  | ["glob", p, subj] =>
+    match unhexTok p, unhexTok subj with
+    | some p, some subj => (s, s!"G {Glob.globMatch p subj} {Glob.rglob p subj}")
+    | _, _ => (s, "bad-op")
+  | "globs" :: p :: subjects =>
+    match unhexTok p, subjects.mapM unhexTok with
+    | some p, some ss =>
+      (s, "G " ++ String.ofList (ss.map fun x => if Glob.globMatch p x then '1' else '0') ++ " "
+            ++ String.ofList (ss.map fun x => if Glob.rglob p x then '1' else '0'))
+    | _, _ => (s, "bad-op")
+  | ["conv", kind, v] =>
+    match unhexTok v with
+    | none => (s, "bad-op")
+    | some b =>
+      let showE {α} (f : α → String) : Except Err α → String
+        | .ok x => "ok " ++ f x
+        | .error e => "err " ++ toHex (strBytes e)
+      let dbl (d : Dbl) : String := toString d.toBits.toNat
+      let lexS : LexB → String
+        | .before => "before" | .after => "after" | .val x => "v" ++ toHex x
+      let r := match kind with
+        | "int" => showE toString (Conv.int b)
+        | "dbindex" => showE toString (Conv.dbIndex b)
+        | "bitoffset" => showE toString (Conv.bitOffset b)
+        | "bitvalue" => showE toString (Conv.bitValue b)
+        | "timeout" => showE toString (Conv.timeout b)
+        | "float" => showE dbl (Conv.float b)
+        | "sortfloat" => showE dbl (Conv.sortFloat b)
+        | "score" => showE (fun p => dbl p.1 ++ (if p.2 then " excl" else " incl")) (Conv.scoreTest b)
+        | "lex" => showE (fun p => lexS p.1 ++ (if p.2 then " excl" else " incl")) (Conv.stringTest b)
+        | "pyfloat" => (match PyFloat.parse b with | some d => "ok " ++ dbl d | none => "err")
+        | _ => "bad-op"
+      (s, "V " ++ r)
+  | ["fmt", kind, bits] =>
+    let d := Dbl.ofBits (UInt64.ofNat bits.toNat!)
+    (s, "V " ++ toHex (match kind with
+      | "g" => strBytes (Dbl.fmtG17 d)
+      | "f" => strBytes (Dbl.fmtF17Human d)
+      | "enc6g" => Cmd.encodeFloat 6 d false
+      | "enc7g" => Cmd.encodeFloat 7 d false
+      | "enc6f" => Cmd.encodeFloat 6 d true
+      | _ => Cmd.encodeFloat 7 d true))
+  | ["arith", op, a, b] =>
+    let x := Dbl.ofBits (UInt64.ofNat a.toNat!)
+    let y := Dbl.ofBits (UInt64.ofNat b.toNat!)
+    (s, "V " ++ toString (match op with
+      | "add" => (Dbl.add x y).toBits.toNat
+      | "mul" => (Dbl.mul x y).toBits.toNat
+      | "lt" => if Dbl.lt x y then 1 else 0
+      | "eq" => if Dbl.eq x y then 1 else 0
+      | _ => 0))
+  | ["encreq", fieldsHex] =>
+    -- parse a byte stream to exhaustion with the model's request parser
+    match unhexTok fieldsHex with
+    | none => (s, "bad-op")
+    | some buf =>
+      let rec go (fuel : Nat) (b : Bytes) (acc : List (List Bytes)) : List (List Bytes) × Bytes :=
+        match fuel with
+        | 0 => (acc.reverse, b)
+        | f + 1 => match tryParse b with
+          | some (fs, rest) => go f rest (fs :: acc)
+          | none => (acc.reverse, b)
+      let (reqs, rest) := go (buf.length + 1) buf []
+      (s, "P " ++ ";".intercalate (reqs.map fun r => ",".intercalate (r.map fun f => if f.isEmpty then "_" else toHex f)) ++ " | " ++ (if rest.isEmpty then "_" else toHex rest))
   | _ => (s, "bad-op")
 
 partial def loop (h : IO.FS.Stream) (out : IO.FS.Stream) (s : Sys) : IO Unit := do
